@@ -42,6 +42,11 @@ func (node *tagCycleNode) Execute(ctx *ExecutionContext, writer TemplateWriter) 
 		if err != nil {
 			return err
 		}
+		if inner, ok := val.Interface().(*tagCycleValue); ok {
+			// the argument names a cycle value (possibly this one: {% cycle x as x %}): take what it holds,
+			// a cycle value never holds a cycle value
+			val = inner.value
+		}
 
 		t.value = val
 
